@@ -220,7 +220,7 @@ func scanChecks(k *run.K, g geom.Geometry, t model.Tree, lib []byte) {
 type driverValue = driver.Valuer
 
 func runAll(c *run.Ctx) {
-	n := c.N(12000, 300000)
+	n := c.N(40000, 400000)
 	if c.Variant != "" {
 		n = 40000
 	}
@@ -242,7 +242,7 @@ func runAll(c *run.Ctx) {
 			})
 		}
 	}
-	m := c.N(3000, 60000)
+	m := c.N(8000, 80000)
 	if c.Variant != "" {
 		m = 5000
 	}
